@@ -82,6 +82,50 @@ pub mod verif
         &b.file_infos[i].file_state
     }
 
+    /*  one-element FileStateVec without going through the growth path of an empty Vec */
+    pub fn fsv1(t : Ticket) -> FileStateVec
+    {
+        let mut infos = Vec::with_capacity(1);
+        infos.push(FileState { ticket : t, timestamp : 0, executable : false });
+        FileStateVec { infos : infos }
+    }
+
+    /*  Exact replacement for the derived `FileStateVec::clone` on vectors of at most 2 entries
+        (the harness domain; longer vectors are a harness-domain error): the generic Vec clone is
+        a symbolic-length copy into a fresh allocation, which exhausts CBMC's memory in
+        rebuild_node. */
+    pub fn fsv_clone_small(v : &FileStateVec) -> FileStateVec
+    {
+        let n = v.infos.len();
+        assert!(n <= 2, "FileStateVec clone stub: more than 2 entries");
+        let mut infos = Vec::with_capacity(2);
+        if n >= 1
+        {
+            infos.push(FileState { ticket : Ticket::clone(&v.infos[0].ticket), timestamp : v.infos[0].timestamp, executable : v.infos[0].executable });
+        }
+        if n >= 2
+        {
+            infos.push(FileState { ticket : Ticket::clone(&v.infos[1].ticket), timestamp : v.infos[1].timestamp, executable : v.infos[1].executable });
+        }
+        FileStateVec { infos : infos }
+    }
+
+    /*  FileStateVec of the given tickets without the growth path of an empty Vec */
+    pub fn fsv_of(tickets : Vec<Ticket>) -> FileStateVec
+    {
+        let mut infos = Vec::with_capacity(2);
+        for t in tickets
+        {
+            infos.push(FileState { ticket : t, timestamp : 0, executable : false });
+        }
+        FileStateVec { infos : infos }
+    }
+
+    pub fn blob_path(b : &Blob, i : usize) -> &String
+    {
+        &b.file_infos[i].path
+    }
+
     pub fn blob_len(b : &Blob) -> usize
     {
         b.file_infos.len()
